@@ -164,6 +164,14 @@ type world struct {
 	// same (value, weight): the stored value node is shared between them
 	sharedRetired map[string]bool
 
+	// C10
+	c10 *c10
+
+	// C12
+	partial   *wmpt.WeightedMerkleTrie
+	requested map[string]bool
+	exportCtx string
+
 	// C13
 	keysBeforeB, keysAfterB map[string]bool
 	cp                      *commitRec
@@ -393,4 +401,10 @@ func (w *world) hashClass(hash []byte, model map[string]refwmpt.Entry) string {
 		return "node-missing:" + d
 	}
 	return "node-missing:not-in-canonical-trie"
+}
+
+func sortStrings(s []string) { sort.Strings(s) }
+
+func entryOf(key, v []byte) refwmpt.Entry {
+	return refwmpt.Entry{Key: string(key), Value: append([]byte{}, v...), Weight: weightOf(v)}
 }
